@@ -148,7 +148,7 @@ def write_matrix_file(path, x, P, f):
 # ------------------------------------------------------------------ strategies
 @st.composite
 def matrices(draw, size=None):
-    size = size or draw(st.sampled_from(['tiny', 'small', 'small', 'big', 'big', 'wide']))
+    size = size or draw(st.sampled_from(['tiny', 'small', 'small', 'small', 'big', 'big', 'big', 'wide', 'wide', 'tall']))
     if size == 'tiny':
         n, g = draw(st.integers(1, 4)), draw(st.integers(1, 4))
     elif size == 'small':
@@ -157,6 +157,10 @@ def matrices(draw, size=None):
         # few cells, many genes: single rows with more than 100 stored entries (a cell expressing > 100 genes),
         # so that one row alone exceeds the per-pass element budget of the CSC->CSR conversion at its minimum
         n, g = draw(st.integers(2, 8)), draw(st.integers(110, 260))
+    elif size == 'tall':
+        # more rows than a one-byte counter holds; sometimes also more stored entries than a two-byte counter (65 535)
+        n = draw(st.integers(257, 300))
+        g = draw(st.sampled_from([2, 5, 9, 240]))
     else:
         n, g = draw(st.integers(8, 40)), draw(st.integers(6, 30))
     fam = draw(st.sampled_from(['random'] * 6 + ['empty', 'single', 'full']))
@@ -164,7 +168,7 @@ def matrices(draw, size=None):
          'big': draw(st.integers(0, 3)) == 0, 'stored_zeros': draw(st.integers(0, 3)) == 0,
          'seed': draw(st.integers(0, 2 ** 31 - 1)), 'family': fam}
     if fam == 'random':
-        m['density'] = draw(st.sampled_from([0.1, 0.3, 0.6, 0.6, 0.9] if size != 'wide' else [0.6, 0.9, 0.95]))
+        m['density'] = draw(st.sampled_from([0.97] if n * g > 60000 else [0.1, 0.3, 0.6, 0.6, 0.9] if size != 'wide' else [0.6, 0.9, 0.95]))
         m['empty_rows'] = draw(st.lists(st.integers(0, n - 1), max_size=3, unique=True)) if draw(st.booleans()) else []
         m['empty_cols'] = draw(st.lists(st.integers(0, g - 1), max_size=3, unique=True)) if draw(st.booleans()) else []
     return m
@@ -189,6 +193,8 @@ def file_layouts(draw):
 @st.composite
 def row_chunk_sizes(draw, n):
     kind = draw(st.sampled_from(['any', 'any', 'any', 'one', 'n', 'divisor', 'beyond']))
+    if n > 100 and kind in ('any', 'one', 'divisor'):
+        return draw(st.sampled_from([1, 7, 100, 128, 255, 256, 257, n - 1]))
     if kind == 'one':
         return 1
     if kind == 'n':
